@@ -7,7 +7,7 @@ IMPL_PARALLEL = 16
 install(globals(), "C08", ["pe", "e2e", "cab", "ps", "jar", "apk", "ziprw", "xsig", "deb", "appx", "pgp", "macho", "vsix", "xap", "msisign", "dmg", "cosign", "xar", "csvfy"])
 UNPROVED += ['Relic.Props.C08.cat_history assumes every identity\'s output stays below 2^31 bytes (Fits) and a chain of DER certificates (Signer.WF); catalogs that were not signed by relic before are covered by cat_resign_preserves_content only through their first signing']
 
-UNPROVED += ['Relic.Props.C08.xar_history_full (that every later Sign call succeeds on relic\'s own output needs the sorted member ranges to be disjoint; proved with the success hypotheses: xar_history_partial, xar_resign_replaces; executed per hist op)']
 
 import csvfy as _csvfy  # Apple code signatures: PatchSignature arithmetic and signing histories (lean/Relic/Props/C08_MachOLinkedit.lean)
 UNPROVED += _csvfy.UNPROVED_C08
+UNPROVED += ['Relic.Props.C08.xar_history_full (that every later Sign call succeeds on relic\'s own output, for regular documents, keys whose blobs fit the 10^6 limit on a <size>, TOCs within Sign\'s own limits; the layout part is now decided by Sign itself and proved: xar_resign_layout_accepted (the reserved elements tile [0, newSig)), xar_sigarea_is_sum; still missing: the forward-only member check of Sign passes on the shifted heap whenever it passed on the original; proved with the success hypotheses: xar_history_partial, xar_resign_replaces; executed per hist op)']
